@@ -7,7 +7,7 @@
    over the real numbers; ax_None/ax_0/ax_1/ax_both are the Python values
    None, 0, 1, (0, 1); both_spellings = [(0, 1); [0, 1]; (1, 0)]. *)
 From Coq Require Import List Arith Bool ZArith Reals QArith.
-From PA Require Import base.Arr base.QClose model.Symmetry model.SymmetryQ
+From PA Require Import base.Arr base.Px base.QClose model.Symmetry model.SymmetryQ
   proofs.SymmetryProofs proofs.C06R proofs.C06Q.
 Import ListNotations.
 
@@ -54,6 +54,46 @@ Theorem C06_sym_mean : forall (n m : nat) (IM : list (list R)),
   symR ax_1 mask_all Average IM = Ok (imdiv Rdivn 2 (imadd Rplus IM (flipud IM))).
 Proof. exact R_sym_mean. Qed.
 Print Assumptions C06_sym_mean.
+
+(* For EVERY admissible use_quadrants mask the result is, pixel by pixel, the
+   mean over the enabled quadrants of the pixel and its mirror image(s)
+   (mean2R ua ub a b = (ua*a + ub*b)/(ua+ub), mean4R likewise over four).  Rows
+   i < n/2 belong to the upper quadrants, the central row and below to the lower
+   ones; columns j < m/2 to the left-hand quadrants, the central column and
+   beyond to the right-hand ones. *)
+Theorem C06_sym_px_0 : forall (n m : nat) (IM S : list (list R)) (u : mask) (i j : nat),
+  wf n m IM -> (1 <= n)%nat -> (1 <= m)%nat ->
+  symR ax_0 u Average IM = Ok S -> (i < n)%nat -> (j < m)%nat ->
+  px 0%R S i j =
+    if (i <? n / 2)%nat
+    then (if (j <? m / 2)%nat then mean2R (u0 u) (u1 u) (px 0%R IM i (m - 1 - j)) (px 0%R IM i j)
+          else mean2R (u0 u) (u1 u) (px 0%R IM i j) (px 0%R IM i (m - 1 - j)))
+    else (if (j <? m / 2)%nat then mean2R (u2 u) (u3 u) (px 0%R IM i j) (px 0%R IM i (m - 1 - j))
+          else mean2R (u2 u) (u3 u) (px 0%R IM i (m - 1 - j)) (px 0%R IM i j)).
+Proof. exact R_sym_px_0. Qed.
+Print Assumptions C06_sym_px_0.
+
+Theorem C06_sym_px_1 : forall (n m : nat) (IM S : list (list R)) (u : mask) (i j : nat),
+  wf n m IM -> (1 <= n)%nat -> (1 <= m)%nat ->
+  symR ax_1 u Average IM = Ok S -> (i < n)%nat -> (j < m)%nat ->
+  px 0%R S i j =
+    if (j <? m / 2)%nat
+    then (if (i <? n / 2)%nat then mean2R (u1 u) (u2 u) (px 0%R IM i j) (px 0%R IM (n - 1 - i) j)
+          else mean2R (u1 u) (u2 u) (px 0%R IM (n - 1 - i) j) (px 0%R IM i j))
+    else (if (i <? n / 2)%nat then mean2R (u0 u) (u3 u) (px 0%R IM i j) (px 0%R IM (n - 1 - i) j)
+          else mean2R (u0 u) (u3 u) (px 0%R IM (n - 1 - i) j) (px 0%R IM i j)).
+Proof. exact R_sym_px_1. Qed.
+Print Assumptions C06_sym_px_1.
+
+Theorem C06_sym_px_both : forall (n m : nat) (IM S : list (list R)) (a : axis) (u : mask) (i j : nat),
+  wf n m IM -> (1 <= n)%nat -> (1 <= m)%nat -> In a both_spellings ->
+  symR a u Average IM = Ok S -> (i < n)%nat -> (j < m)%nat ->
+  px 0%R S i j = mean4R u (px 0%R IM (Nat.min i (n - 1 - i)) (Nat.max j (m - 1 - j)))
+                          (px 0%R IM (Nat.min i (n - 1 - i)) (Nat.min j (m - 1 - j)))
+                          (px 0%R IM (Nat.max i (n - 1 - i)) (Nat.min j (m - 1 - j)))
+                          (px 0%R IM (Nat.max i (n - 1 - i)) (Nat.max j (m - 1 - j))).
+Proof. exact R_sym_px_both. Qed.
+Print Assumptions C06_sym_px_both.
 
 (* A request is rejected exactly when some output quadrant would have no
    enabled source quadrant. *)
